@@ -172,7 +172,36 @@ def run(ctx):
                     okret = True
     ctx.ob('REMOVAL', 'bucket:retain-on-id', same_idx and okret and bool(rr.calls(r'KBucket::remove_node$')), rr.where(),
            'routing removal uses the insertion bucket index (%s) and retains entries whose id differs (%s)' % (same_idx, okret))
-    ctx.floor('REMOVAL', 3)
+    # who may put a peer into a bucket: only KBucket::add_node grows `nodes`; nothing else (in particular no removal
+    # path, no promotion from a side list) re-inserts a peer, so a removed peer stays out until add_node is called again
+    GROW = r'Vec::<.*>::(push|insert|extend|append|extend_from_slice|resize|resize_with|splice)$|VecDeque::<.*>::(push_back|push_front|insert|extend|append)$|Extend<.*>>::extend$'
+    ngrow = 0
+    for wb, wbi, kind, thing in L.field_writes(prog, KB, 'nodes'):
+        if kind == 'aggregate':
+            continue
+        if kind == 'assign':
+            n = sum(1 for o in ctx.obls if o.key.startswith('bucket:nodes-writer:%s' % wb.id))
+            ctx.ob('REMOVAL', 'bucket:nodes-writer:%s#%d' % (wb.id, n), wb.id == KB + '::new', wb.where(thing.get('ln')),
+                   'KBucket.nodes is assigned as a whole in %s' % wb.id)
+            continue
+        if kind != 'mut-borrow':
+            continue
+        tmp = thing['d'][0]
+        for cs in wb.calls(GROW):
+            used = set()
+            for a in cs.args[:1]:
+                if 'p' in a:
+                    used |= wb.backward_locals([a['p'][0]])
+            if tmp in used:
+                ngrow += 1
+                n = sum(1 for o in ctx.obls if o.key.startswith('bucket:nodes-grows:%s' % wb.id))
+                okw = wb.id == KB + '::add_node'
+                ctx.ob('REMOVAL', 'bucket:nodes-grows:%s#%d' % (wb.id, n), okw, cs.where(),
+                       ('%s adds an entry to KBucket.nodes' % '::'.join(wb.id.rsplit('::', 2)[-2:])) +
+                       ('' if okw else ': a peer enters the routing table outside add_node — an evicted or failed peer can come back without being added again'))
+    if ngrow == 0:
+        ctx.ob('REMOVAL', 'bucket:nodes-grows', False, 'src/dht/core_engine.rs', 'no site growing KBucket.nodes recognised (anchor)')
+    ctx.floor('REMOVAL', 4)
 
     # ---- 4. selector
     swc = prog.body(SEL + '::select_peers_with_config')
